@@ -46,7 +46,7 @@ def _proj_names(pr):
     out = []
     for e in pr:
         if isinstance(e, dict) and 'f' in e:
-            out.append(('f', e.get('name') if e.get('name') is not None else str(e.get('f')), e.get('adt')))
+            out.append(('f', e.get('name') if e.get('name') is not None else str(e.get('f')), e.get('adt'), e.get('f')))
         elif isinstance(e, dict) and 'dc' in e:
             out.append(('dc', e['dc']))
         elif e == '*':
@@ -62,6 +62,12 @@ def place_expr(crate, body, p, env, depth):
     l = p['l']
     pr = p.get('p') or []
     if depth <= 0:
+        return ('unknown', 'depth')
+    # copies, reborrows and scalar-replacement steps do not use up the structural depth (a value handed through helpers that were absorbed
+    # into this body travels through a dozen copies); a step budget keeps the walk finite
+    steps = env.setdefault(('steps',), [0])
+    steps[0] += 1
+    if steps[0] > 20000:
         return ('unknown', 'depth')
     if ('local', l) in env and not pr:
         return env[('local', l)]
@@ -91,8 +97,8 @@ def place_expr(crate, body, p, env, depth):
             q = body._peel(p)
             if q is not None:
                 if q.get('k') in ('const', 'copy', 'move'):
-                    return expr(crate, body, q, env, depth - 1)
-                return place_expr(crate, body, q, env, depth - 1)
+                    return expr(crate, body, q, env, depth)
+                return place_expr(crate, body, q, env, depth)
         base = place_expr(crate, body, {'l': l, 'p': None}, env, depth - 1)
         rest = [n for n in names if n != ('*',)]
         return _apply_proj(base, rest)
@@ -114,9 +120,9 @@ def place_expr(crate, body, p, env, depth):
     rv = payload['rv']
     k = rv['k']
     if k in ('use', 'cast'):
-        return expr(crate, body, rv['op'], env, depth - 1)
+        return expr(crate, body, rv['op'], env, depth)
     if k in ('ref', 'rawptr'):
-        return place_expr(crate, body, rv['place'], env, depth - 1)
+        return place_expr(crate, body, rv['place'], env, depth)
     if k == 'bin':
         op = rv['op']
         if op.endswith('WithOverflow'):
@@ -163,6 +169,8 @@ def _apply_proj(base, names):
                 cur = ('field', tuple(prev) + (n[1],)) if cur[0] == 'field' else ('field', (n[1],))
             elif cur[0] == 'tuple' and n[1].isdigit() and int(n[1]) + 1 < len(cur):
                 cur = cur[int(n[1]) + 1]
+            elif cur[0] == 'adt' and len(n) > 3 and isinstance(n[3], int) and cur[2] in (None, '', str(cur[1]).rsplit('::', 1)[-1]) and n[3] < len(cur[3]):
+                cur = cur[3][n[3]]          # field of a struct literal built in this body
             elif cur[0] == 'payload' and n[1] == '0':
                 cur = cur   # (x as Variant).0 : keep payload
             else:
